@@ -28,19 +28,56 @@ package hashgraph
 //@ memo Event.hex hexMemo
 //@ memo Event.hash hashMemo
 
-//@ func (e *EventBody) Hash() ([]byte, error)
-//@   trusted definition of H7 (encoding/json of the exported fields, then SHA256); json.Marshal of these field types cannot fail
+// The three body hashes are verified, not trusted: each encodes the receiver itself (not a copy with a field dropped or
+// normalised) with the standard encoder and returns the SHA-256 digest of exactly those bytes. Trusted below them: the
+// encoders (definitions of EvEnc7 / ItxEnc / BlockEnc: what encoding/json writes for the exported fields; it cannot fail
+// for these field types) and SHA256 (crypto.Sha256Of). The axioms are the definitions of H7, HItx, HBlock.
+//@ ghost func EvEnc7(txs [][]byte, itxs []InternalTransaction, parents []string, creator []byte, index int, sigs []BlockSignature, ts int64) []byte
+//@ ghost func EvBodyEnc(b EventBody) []byte { return EvEnc7(b.Transactions, b.InternalTransactions, b.Parents, b.Creator, b.Index, b.BlockSignatures, b.Timestamp) }
+//@ ghost func ItxEnc(b InternalTransactionBody) []byte
+//@ ghost func BlockEnc(b BlockBody) []byte
+//@ ghost func DigestOf(b []byte) []byte { return crypto.Sha256Of(b) }
+//@ axiom[event-hash-def] forall b EventBody :: __seqeq(BodyHash(b), DigestOf(EvBodyEnc(b)))
+//@ axiom[itx-hash-def]   forall b InternalTransactionBody :: __seqeq(HItx(b), DigestOf(ItxEnc(b)))
+//@ axiom[block-hash-def] forall b BlockBody :: __seqeq(HBlock(b), DigestOf(BlockEnc(b)))
+
+//@ func (e *EventBody) Marshal() ([]byte, error)
+//@   trusted encoding/json encoder, definition of EvEnc7 (the exported fields); cannot fail for these field types
 //@   modifies nothing
+//@   ensures[def] ret1 == nil && __seqeq(ret0, EvBodyEnc(*e))
+
+//@ func (i *InternalTransactionBody) Marshal() ([]byte, error)
+//@   trusted encoding/json encoder, definition of ItxEnc; cannot fail for these field types
+//@   modifies nothing
+//@   ensures[def] ret1 == nil && __seqeq(ret0, ItxEnc(*i))
+
+//@ func (bb *BlockBody) Marshal() ([]byte, error)
+//@   trusted encoding/json encoder, definition of BlockEnc; cannot fail for these field types
+//@   modifies nothing
+//@   ensures[def] ret1 == nil && __seqeq(ret0, BlockEnc(*bb))
+
+//@ func (e *EventBody) Hash() ([]byte, error)
+//@   safety on
+//@   requires e != nil
+//@   modifies nothing
+//@   call Marshal assert[of-this-body] __recv() == e
+//@   call SHA256 assert[of-encoding] __samebytes(__argT[[]byte](0), __lastretT[[]byte]("Marshal", 0))
 //@   ensures[def] ret1 == nil && __seqeq(ret0, BodyHash(*e)) && len(ret0) == 32
 
 //@ func (i *InternalTransactionBody) Hash() ([]byte, error)
-//@   trusted definition of HItx
+//@   safety on
+//@   requires i != nil
 //@   modifies nothing
+//@   call Marshal assert[of-this-body] __recv() == i
+//@   call SHA256 assert[of-encoding] __samebytes(__argT[[]byte](0), __lastretT[[]byte]("Marshal", 0))
 //@   ensures[def] ret1 == nil && __seqeq(ret0, HItx(*i)) && len(ret0) == 32
 
 //@ func (bb *BlockBody) Hash() ([]byte, error)
-//@   trusted definition of HBlock
+//@   safety on
+//@   requires bb != nil
 //@   modifies nothing
+//@   call Marshal assert[of-this-body] __recv() == bb
+//@   call SHA256 assert[of-encoding] __samebytes(__argT[[]byte](0), __lastretT[[]byte]("Marshal", 0))
 //@   ensures[def] ret1 == nil && __seqeq(ret0, HBlock(*bb)) && len(ret0) == 32
 
 //@ func (e *Event) Creator() string
@@ -440,10 +477,18 @@ package hashgraph
 // FrameHashOf: by definition, SHA256 of the canonical (sorted-key) encoding of the frame.
 //@ ghost func FrameHashOf(f Frame) []byte
 
+// FrameEnc: by definition, what the canonical codec encoder writes for the frame VALUE (every field, as it is now).
+// The body of Frame.Hash is verified: it encodes the receiver itself - not a copy with fields dropped or filtered
+// (seed C12-5 hashed a copy without the validator sets of later rounds) - and returns the digest of exactly those bytes.
+//@ import "github.com/mosaicnetworks/babble/src/crypto"
+//@ ghost func FrameEnc(f Frame) []byte
+//@ axiom[frame-hash-def] forall f Frame :: __seqeq(FrameHashOf(f), DigestOf(FrameEnc(f)))
 //@ func (f *Frame) Hash() ([]byte, error)
-//@   trusted definition of FrameHashOf (codec canonical JSON, then SHA256)
+//@   safety on
 //@   requires f != nil
 //@   modifies nothing
+//@   call Marshal assert[of-this-frame] __recv() == f
+//@   call SHA256 assert[of-encoding] __samebytes(__argT[[]byte](0), __lastretT[[]byte]("Marshal", 0))
 //@   ensures[def] ret1 == nil ==> __seqeq(ret0, FrameHashOf(*f))
 
 // SignedByMoreThanThird: more than one third of the distinct members of ps have a signature in the
@@ -1086,6 +1131,9 @@ package hashgraph
 //@   call SetRoundReceived assert[quorum]          tPeers == G_pset(h.Store)[i] && 3*len(fws) > 2*len(tPeers.ByPubKey)
 //@   call AddReceivedEvent assert[same-round]      __recv() == tr && __arg(0) == x
 //@   call SetEvent#1 assert[write-back-event]      __arg(0) == ex && ex.roundReceived != nil && *ex.roundReceived == i
+// an event that was given a round-received is flagged, so that it is not queued again (it would be received a second time
+// by a later pass: one round-received per event, C04/C05)
+//@   call AddReceivedEvent after assert[received-leaves] received
 //@   call SetRound#1 assert[write-back-round]      __arg(0) == i && __arg(1) == tr && len(tr.ReceivedEvents) > 0 && tr.ReceivedEvents[len(tr.ReceivedEvents)-1] == x
 //@   loop 1 invariant[memo] h.MemoOK()
 //@   loop 2 invariant[memo] h.MemoOK()
@@ -1468,9 +1516,10 @@ package hashgraph
 //@   modifies nothing
 
 //@ func (f *Frame) Marshal() ([]byte, error)
-//@   trusted codec encoder: reads the frame, writes nothing
+//@   trusted codec encoder, definition of FrameEnc: reads the frame, writes nothing
 //@   requires f != nil
 //@   modifies nothing
+//@   ensures[def] ret1 == nil ==> __seqeq(ret0, FrameEnc(*f))
 
 // The single-record writers are verified against the transaction model: under the record's key the database holds
 // exactly the bytes that Marshal of THAT object returned in this call, every other record is untouched, and a failure
